@@ -23,7 +23,7 @@ DEFAULT_PROFILE = {
     "allow_iter_cancel": False,  # P-iter: cancel of g from g's own iterator
     "unlock_after_gac": False,
     "max_requests": 6,
-    "nonfifo": 0.0,
+    "nonfifo": 0.25,          # also run a ready handle other than the head of the queue
     "valid_bias": 0.8,        # how often a cancelled id is a live one
     "map_bias": 0.5,          # map family vs. apply (TaskPool)
     "named": 0.4,             # how often a request carries an explicit group name
